@@ -158,7 +158,7 @@ impl State {
                 fwd_chain_ok(st_abs(*self), chs_abs(old(decode_state).changes@.skip(it.index@ as int))),
                 fold_fwd(st_abs(*self), chs_abs(old(decode_state).changes@.skip(it.index@ as int)))
                     == fold_fwd(StAbs { saw_block: true, height: (old(self).height + 1) as u32, ..st_abs(*old(self)) }, chs_abs(old(decode_state).changes@)),
-//@proof before /for change in vx_drain\(/
+//@proof before /for change in vx_drain/
         proof { assert(decode_state.changes@.skip(0) =~= decode_state.changes@); }
 //@proof before /self\.apply_forward_change\(&mut adds, &mut removes, change\)/
             proof {
@@ -193,7 +193,7 @@ impl State {
                 bwd_chain_ok(st_abs(*self), chs_abs(old(decode_state).changes@.reverse().skip(it.index@ as int))),
                 fold_bwd(st_abs(*self), chs_abs(old(decode_state).changes@.reverse().skip(it.index@ as int)))
                     == fold_bwd(st_abs(*old(self)), chs_abs(old(decode_state).changes@.reverse())),
-//@proof before /for change in vx_drain_rev\(/
+//@proof before /for change in vx_drain/
         proof {
             assert(decode_state.changes@.reverse().skip(0) =~= decode_state.changes@.reverse());
             lemma_chs_abs_reverse(decode_state.changes@);
